@@ -78,9 +78,22 @@ def impl_fn(case):
     T = m.transition_matrix()
     sl = m.graph.state_list
     tp = np.zeros_like(T)
+    names = list(m.graph.lnls)
     for i, x in enumerate(sl):
         for j, y in enumerate(sl):
-            m.graph.set_state(*x)
+            k = (i + 2 * j) % 4          # the current state set in the documented ways: positional, by name, mixed
+            xs = [int(v) for v in x]
+            if k == 0:
+                m.graph.set_state(*xs)
+            elif k == 1:                 # keywords in reverse order
+                m.graph.set_state(**{n: v for n, v in reversed(list(zip(names, xs)))})
+            elif k == 2:                 # a positional prefix, the rest by name
+                h = len(xs) // 2
+                m.graph.set_state(*xs[:h], **dict(list(zip(names, xs))[h:]))
+            else:                        # keywords override the positional values
+                m.graph.set_state(*[0] * len(xs), **dict(zip(names, xs)))
+            if list(m.graph.get_state()) != xs or m.graph.get_state(as_dict=True) != dict(zip(names, xs)):
+                raise AssertionError(f"set_state/get_state: asked for {xs}, got {m.graph.get_state(as_dict=True)}")
             tp[i, j] = m.transition_prob(list(y))
     # assign=True returns the same probability and moves the model to the new state
     assign_ok = True
